@@ -142,7 +142,11 @@ def main(tier):
                 ck.violation(what, {"case": cfg, "observed": st, "bound": bound})
 
         if r.get("result_stable") is False:
-            ck.violation("the tensor returned by F.linear was overwritten by a later call with operands of the same shapes", {"case": cfg})
+            if c["op"] == "linear" and dtype == "bfloat16" and c.get("act") == "float" and c.get("wq") == "qint8" and K % 4 == 0 and K % 16 != 0:
+                # F14: the int8-pack kernel reads past unaligned rows; when it does not crash its result is garbage that changes from call to call
+                ck.violation(f"linear: bfloat16 activations x int8 weights routed to torch._weight_int8pack_mm with in_features={K} (not a multiple of 16): the kernel returns garbage (two calls on the same operands differ) when it does not crash", {"case": cfg})
+            else:
+                ck.violation("the tensor returned by F.linear was overwritten by a later call with operands of the same shapes", {"case": cfg})
         judge(r, c["op"])
         for name, st in (r.get("routes") or {}).items():
             judge(st, "route " + name)
